@@ -25,11 +25,22 @@ def main():
         for l in chk.get("lines", [])[:1]:
             mm = re.search(r"bucket=(\S+)", l)
             b = mm.group(1) if mm else ""
+        by = m["property"]
+        if chk.get("verdict") != "CAUGHT":
+            # a change whose violation belongs to another listed property (meta "also_check") counts when THAT check fires
+            for other in m.get("also_check", []):
+                c2 = v.get("check_" + other, {})
+                if c2.get("verdict") == "CAUGHT":
+                    chk, by = c2, other
+                    for l in c2.get("lines", [])[:1]:
+                        mm = re.search(r"bucket=(\S+)", l)
+                        b = mm.group(1) if mm else ""
+                    break
         if chk.get("verdict") != "CAUGHT" or not v.get("valid_seed"):
             bad.append((os.path.basename(d), chk.get("verdict"), v.get("valid_seed")))
         rows.append("| %s | %s | %s | `./check %s` → `%s` |" % (
             os.path.basename(d), short(m["summary"]).replace("|", "\\|"), short(m.get("needs", ""), 200).replace("|", "\\|"),
-            m["property"], b))
+            by, b))
     table = "\n".join(["| seed | what was changed (by an isolated sub-agent, given only the property text) | needs | caught by |",
                        "|---|---|---|---|"] + rows)
     mut = collections.OrderedDict()
